@@ -75,6 +75,7 @@ B3 = {
 
 # ---- function-level conformance: generator module, judgement module, constants per tier ----
 FN = {
+    "C01": [dict(gen="Gen_Fitness", judge="Judge_Fitness", quick="MaxTerms = 1", thorough="MaxTerms = 2")],
     "C16": [dict(gen="Gen_Defaults", judge="Judge_Defaults", quick="Full = FALSE", thorough="Full = TRUE")],
     "C20": [dict(gen="Gen_Labels", judge="Judge_Labels", quick="MaxLen = 2\n  MaxKeys = 2", thorough="MaxLen = 2\n  MaxKeys = 3")],
 }
